@@ -37,4 +37,4 @@ pub use data_types::{DateFormat, Separator};
 pub use parser_gadget::*;
 pub use specs::{spec_library, StdLibParser};
 #[cfg(feature = "verif-hooks")]
-pub use specs::verif_spec_regexes;
+pub use specs::{verif_automaton_deserialize, verif_spec_regexes};
